@@ -37,11 +37,16 @@ func mkdir(root string, i int) string {
 	return d
 }
 
+// sharedOpts: built once, with spare capacity, never written by this program
+var sharedOpts = append(make([]fileseq.FileOption, 0, 8), fileseq.HiddenFiles, fileseq.FileOptPadStyleHash1, fileseq.StrictPadding)
+
 func workload(seed int64, calls int, dir string) uint64 {
 	r := rand.New(rand.NewSource(seed))
 	h := fnv.New64a()
 	add := func(s string) { h.Write([]byte(s)); h.Write([]byte{0}) }
-	ranges := []string{"1-10", "10-1x3", "1-20y3,30", "5,4,3", "1-9:3", " 1 - 5 #", "bad", "1-5x0"}
+	ranges := []string{"1-10", "10-1x3", "1-20y3,30", "5,4,3", "1-9:3", " 1 - 5 #", "bad", "1-5x0",
+		"99999999999999999999", "1-5,7-99999999999999999999999", "-99999999999999999999-3x2"}
+	ranges[8] = fmt.Sprintf("%d9999999999999999999", seed%9+1) // every goroutine fails on its own number
 	seqs := []string{"/a/b.1-10#.exr", "c.%04d.jpg", "x.$F3.tif", "u.<UDIM>.tx", "/d/e.0012.png", "plain.txt", "f.1-3@@.e",
 		"/w/wide.5-9#####.exr", "/w/p.1-3%018d.tif", "/w/t.1712345678001234567.exr", "/w/h.2-4$F21.bgeo"}
 	for i := 0; i < calls; i++ {
@@ -116,6 +121,14 @@ func workload(seed int64, calls int, dir string) uint64 {
 				s, err := fileseq.FindSequenceOnDisk(dir + "/a.#.exr")
 				if err == nil && s != nil {
 					add(s.String())
+				}
+				// the option list is an input the caller may share between goroutines (seqls does):
+				// one slice with spare capacity, read by everybody
+				s, err = fileseq.FindSequenceOnDiskPad(dir+"/b.@.jpg", fileseq.PadStyleHash1, sharedOpts[:r.Intn(len(sharedOpts)+1)]...)
+				if err == nil && s != nil {
+					add(s.String() + fmt.Sprint(s.ZFill()))
+				} else {
+					add(fmt.Sprint(err == nil))
 				}
 				lf, err := fileseq.ListFiles(dir)
 				add(fmt.Sprint(len(lf), err == nil))
